@@ -98,6 +98,12 @@ func (r *reassembler) process(first, last uint16, more bool, vv buffer.Vectorise
 	if r.deleted < len(r.holes) {
 		return buffer.VectorisedView{}, false, consumed
 	}
+	if r.heap.Len() == 0 {
+		// A concurrent goroutine has already reassembled the packet and
+		// emptied the heap, but has not marked the reassembler as done yet
+		// (that happens in Fragmentation.release, after process returns).
+		return buffer.VectorisedView{}, false, consumed
+	}
 	res, err := r.heap.reassemble()
 	if err != nil {
 		panic(fmt.Sprintf("reassemble failed with: %v. There is probably a bug in the code handling the holes.", err))
